@@ -267,5 +267,160 @@ def main(argv=None):
     return rows
 
 
+# ------------------------------------------------------------------------------------------------ tail functions
+TLOCALS = {"total_len": 0, "partial_buffer_len": 1, "len_in_bit": 2}
+TSOURCES = [("mh_sha1/mh_sha1_finalize_base.c", "_mh_sha1_tail_base"), ("mh_sha1/mh_sha1.c", "_mh_sha1_tail_"),
+            ("mh_sha1/mh_sha1_avx512.c", "_mh_sha1_tail_"),
+            ("mh_sha256/mh_sha256_finalize_base.c", "_mh_sha256_tail_base"), ("mh_sha256/mh_sha256.c", "_mh_sha256_tail_"),
+            ("mh_sha256/mh_sha256_avx512.c", "_mh_sha256_tail_")]
+
+
+class TrTail(Tr):
+    def expr(self, n):
+        k = n.get("kind")
+        c = self.const(n)
+        if c is None and k == "DeclRefExpr":
+            nm = n["referencedDecl"]["name"]
+            if nm in TLOCALS:
+                return "(.loc %d)" % TLOCALS[nm]
+            raise NoFit("variable " + nm)
+        if c is None and k == "CallExpr" and callee(n) == "__builtin_bswap64":
+            return "(.bswap64 (%s))" % self.expr(kids(n)[1])
+        return super().expr(n)
+
+    def pbase(self, n):
+        """offset expression of `partial_buffer [+ e]`, or None"""
+        n = strip(n)
+        if n.get("kind") == "DeclRefExpr" and n["referencedDecl"]["name"] == "partial_buffer":
+            return ".lit 0"
+        if n.get("kind") == "BinaryOperator" and n.get("opcode") in ("+", "-"):
+            a, b = kids(n)
+            base = self.pbase(a)
+            if base is None:
+                return None
+            e = self.expr(b)
+            if base == ".lit 0" and n["opcode"] == "+":
+                return e
+            ca, cb = (int(base[5:]) if base.startswith(".lit ") else None), self.const(b)
+            if ca is not None and cb is not None:
+                return ".lit %d" % (ca + cb if n["opcode"] == "+" else ca - cb)
+            return "(.%s (%s) (%s))" % ("add" if n["opcode"] == "+" else "sub", base, e)
+        return None
+
+    def walk(self, stmts, guard, out):
+        for s in stmts:
+            try:
+                k = s.get("kind")
+                g = "none" if guard is None else "(some %d)" % guard
+                emit = lambda b: out.append("⟨%s, %s⟩" % (g, b))
+                if k == "NullStmt" or (k == "ReturnStmt" and not kids(s)):
+                    if k == "ReturnStmt":
+                        emit(".ret")
+                    continue
+                if k == "DeclStmt":
+                    if all(v.get("name") in TLOCALS and not kids(v) for v in kids(s)):
+                        continue
+                    raise NoFit("declaration")
+                if k == "IfStmt":
+                    parts = kids(s)
+                    if len(parts) != 2:
+                        raise NoFit("if with else")
+                    cond, then = parts
+                    tb = kids(then) if then.get("kind") == "CompoundStmt" else [then]
+                    gid = self.next_guard
+                    self.next_guard += 1
+                    ce = self.expr(cond)
+                    if guard is not None:
+                        ce = "(.land (.loc %d) (%s))" % (guard, ce)
+                    out.append("⟨none, .setLoc %d (%s)⟩" % (gid, ce))
+                    self.walk(tb, gid, out)
+                    continue
+                if k == "UnaryOperator" and s.get("opcode") == "++":
+                    l0 = strip(kids(s)[0])
+                    nm = l0.get("referencedDecl", {}).get("name")
+                    if nm in TLOCALS:
+                        emit(".setLoc %d (.add (.loc %d) (.lit 1))" % (TLOCALS[nm], TLOCALS[nm]))
+                        continue
+                    raise NoFit("++")
+                if k == "BinaryOperator" and s.get("opcode") == "=":
+                    lhs, rhs = kids(s)
+                    l0 = strip(lhs)
+                    if l0.get("kind") == "DeclRefExpr" and l0["referencedDecl"]["name"] in TLOCALS:
+                        emit(".setLoc %d (%s)" % (TLOCALS[l0["referencedDecl"]["name"]], self.expr(rhs)))
+                        continue
+                    if l0.get("kind") == "ArraySubscriptExpr":
+                        b_, idx = kids(l0)
+                        v = self.const(rhs)
+                        if self.pbase(b_) == ".lit 0" and v is not None:
+                            emit(".setByte (%s) %d" % (self.expr(idx), v % 256))
+                            continue
+                    if l0.get("kind") == "UnaryOperator" and l0.get("opcode") == "*":
+                        pt = strip(kids(l0)[0])      # through the (uint64_t *) cast and parentheses
+                        off = self.pbase(pt)
+                        if off is not None and width(l0) == (64, False):
+                            emit(".store64 (%s) (%s)" % (off, self.expr(rhs)))
+                            continue
+                    raise NoFit("assignment")
+                if k == "CallExpr":
+                    cal = callee(s) or ""
+                    a = kids(s)[1:]
+                    if cal == "memset" and len(a) == 3 and self.const(a[1]) == 0 and self.pbase(a[0]) is not None:
+                        emit(".clrAt (%s) (%s)" % (self.pbase(a[0]), self.expr(a[2])))
+                        continue
+                    if re.fullmatch(r"_mh_sha(1|256)_block_\w+", cal) and len(a) == 4 and self.pbase(a[0]) == ".lit 0":
+                        self.blocks.add(cal)
+                        emit(".blockPart (%s)" % self.expr(a[3]))
+                        continue
+                    if re.fullmatch(r"_?sha(1|256)_for_mh_sha(1|256)", cal) and len(a) == 3 and self.const(a[2]) is not None:
+                        emit(".finalSha %d" % self.const(a[2]))
+                        continue
+                    raise NoFit("call " + cal)
+                raise NoFit("statement " + str(k))
+            except NoFit as e:
+                out.append('⟨none, .unsupported "%s"⟩' % str(e).replace('"', "'")[:80])
+            except Exception as e:
+                out.append('⟨none, .unsupported "translator: %s"⟩' % type(e).__name__)
+
+
+def main_tail(argv=None):
+    argv = argv or sys.argv[1:]
+    repo, lean = argv[0], argv[1]
+    tr = TrTail(enum_table(repo))
+    rows, seen = [], set()
+    for rel, flt in TSOURCES:
+        if not os.path.exists(os.path.join(repo, rel)):
+            continue
+        for d in clang_json(repo, rel, flt):
+            if d.get("kind") != "FunctionDecl" or not re.fullmatch(r"_mh_sha(1|256)_tail_\w+", d.get("name", "")) or d["name"] in seen:
+                continue
+            cs = [c for c in kids(d) if c.get("kind") == "CompoundStmt"]
+            if not cs:
+                continue
+            seen.add(d["name"])
+            tr.next_guard, tr.blocks = 10, set()
+            out = []
+            tr.walk(kids(cs[0]), None, out)
+            want = d["name"].replace("_tail_", "_block_")
+            if tr.blocks != {want}:
+                out.append('⟨none, .unsupported "block function %s, expected %s"⟩' % (sorted(tr.blocks), want))
+            rows.append((rel, d["name"], out))
+    out = ["import IsalVerif.Impl.MhTailC",
+           "/-! GENERATED by tools/gen_mhupdate.py from the current tree: every instance of the mh_sha1 / mh_sha256 tail. Do not edit. -/",
+           "namespace IsalVerif.Gen.MhTail", "open IsalVerif.MhTailC", ""]
+    names = []
+    for k, (rel, fn, prog) in enumerate(rows):
+        names.append("t%d" % k)
+        out.append("def t%d : Src := { file := \"%s\", fn := \"%s\", prog := [\n  %s] }" % (k, rel, fn, ",\n  ".join(prog)))
+    out += ["", "def all : List Src := [%s]" % ", ".join(names), "", "end IsalVerif.Gen.MhTail"]
+    dst = os.path.join(lean, "IsalVerif", "Gen", "MhTail.lean")
+    txt = "\n".join(out) + "\n"
+    if not os.path.exists(dst) or open(dst).read() != txt:
+        open(dst, "w").write(txt)
+    uns = sum(1 for _, _, p in rows for s in p if ".unsupported" in s)
+    print("mh tail: %d functions, %d unsupported statements -> %s" % (len(rows), uns, dst))
+    return rows
+
+
 if __name__ == "__main__":
     main()
+    main_tail()
